@@ -112,8 +112,11 @@ package protocol
 //@   requires h != nil && excl(h.mtx) && hshape(h)
 //@   modifies shared
 //@   ensures hshape(h)
+//@   ensures[C06] (result && implements(h.currentRound, round.BroadcastRound) && old(h.broadcast[h.currentRound.Number()]) != nil) ==> h.broadcastHashes[h.currentRound.Number()] != nil
+//@   assert_at[C06] WriteAny "hashState.WriteAny": habs(arg1[0]) == h_bwd("Message", lastbytes(Hash))
 //@   loop 1: invariant each(h.currentRound.PartyIDs()[:rangeindex+1], id, h.broadcast[h.currentRound.Number()][id] != nil)
 //@   loop 2: invariant each(h.currentRound.PartyIDs(), id, h.broadcast[h.currentRound.Number()][id] != nil)
+//@   loop 2: invariant[C06] callcount(WriteAny) == rangeindex + 1
 
 // Echo broadcast (C06): with a view hash recorded for the previous round, success means that every stored
 // point-to-point and broadcast message of the current round carries exactly that hash.
